@@ -534,3 +534,68 @@ def replay(ctx, rep):
         case = dict(case, mm=corr_mm())
         rep = dict(rep, case=case, signature=None)
     return R.replay(PROP, rep)
+
+
+# ---------------------------------------------------------------------------
+# feature names that collide with the XMI syntax (oracle on the implementation only)
+
+SYNTAX_NAMES = ['href', 'type', 'id', 'version', 'nil', 'idref', 'xmi', 'xsi', 'schemaLocation', 'value', 'name']
+
+
+def syntax_name_scenarios(ctx, out):
+    import os
+    import tempfile
+    from pyecore.ecore import EClass, EAttribute, EReference, EString, EPackage
+    from pyecore.resources import ResourceSet, URI
+    cnt = 0
+    for name in SYNTAX_NAMES:
+        for value in ('x', 'http://example.org/page', 'a#b'):
+            p = EPackage('p', nsURI=f'http://verif/c08/names/{name}', nsPrefix='p')
+            A = EClass('A')
+            p.eClassifiers.append(A)
+            A.eStructuralFeatures.append(EAttribute(name, EString))
+            A.eStructuralFeatures.append(EAttribute('label', EString))
+            A.eStructuralFeatures.append(EReference('kids', A, upper=-1, containment=True))
+            r, k = A(), A()
+            r.label, k.label = 'root', 'kid'
+            setattr(r, name, 'r-' + value)
+            setattr(k, name, value)
+            r.kids.append(k)
+            case = {'scenario': 'syntax-names', 'seed': ctx.seed, 'tier': ctx.tier, 'history': [name, value]}
+            sig = {'property': 'C08', 'clause': 'feature-named-like-xmi-syntax', 'name': name}
+            cnt += 1
+            with tempfile.TemporaryDirectory() as d:
+                try:
+                    rs = ResourceSet()
+                    rs.metamodel_registry[p.nsURI] = p
+                    res = rs.create_resource(URI(os.path.join(d, 'm.xmi')))
+                    res.append(r)
+                    res.save()
+                    rs2 = ResourceSet()
+                    rs2.metamodel_registry[p.nsURI] = p
+                    r2 = rs2.get_resource(URI(os.path.join(d, 'm.xmi'))).contents[0]
+                    got = [getattr(r2, name), [(x.label, getattr(x, name)) for x in r2.kids]]
+                    want = ['r-' + value, [('kid', value)]]
+                    if got != want:
+                        out.fail(sig, f'attribute named {name!r}: saved {want}, loaded {got}', case)
+                except Exception as e:  # noqa
+                    out.fail(sig, f'attribute named {name!r} with value {value!r}: {type(e).__name__}: {e}', case)
+    out.coverage['syntax_named_features_checked'] = cnt
+
+
+_run0 = run
+
+
+def run(ctx, out):   # noqa: F811
+    _run0(ctx, out)
+    syntax_name_scenarios(ctx, out)
+
+
+_replay0 = replay
+
+
+def replay(ctx, rep):   # noqa: F811
+    if rep.get('case', {}).get('scenario') == 'syntax-names':
+        common.use_repo()
+        return common.scenario_replay(ctx, rep, {'syntax-names': syntax_name_scenarios})
+    return _replay0(ctx, rep)
